@@ -509,6 +509,13 @@ func ruleGlobals(p *Program, r *Reporter) {
 								globs[g].writes = append(globs[g].writes, ci)
 							}
 						}
+						// what the variable refers to (a slice, a map, a pointer) handed
+						// to a function as an ordinary argument: the callee can write
+						// through it — binary.BigEndian.PutUint16(buf, v), copy(buf, …),
+						// append(buf, …) — unless it is known only to read
+						if ci, ok := ref.(ssa.CallInstruction); ok && !isInitFn(fn) && sharedArgWritten(ci, u) {
+							globs[g].writes = append(globs[g].writes, ci)
+						}
 						switch x := ref.(type) {
 						case *ssa.MapUpdate:
 							if x.Map == ssa.Value(u) && !isInitFn(fn) {
@@ -702,6 +709,94 @@ func storesThroughReceiver(fn *ssa.Function, seen map[*ssa.Function]bool) bool {
 		}
 	}
 	return false
+}
+
+// sharedArgWritten: the call is handed v — a slice, map or pointer — as an
+// argument other than its receiver, and may write through it.
+func sharedArgWritten(ci ssa.CallInstruction, v ssa.Value) bool {
+	switch v.Type().Underlying().(type) {
+	case *types.Slice, *types.Map, *types.Pointer:
+	default:
+		return false
+	}
+	cc := ci.Common()
+	idx := -1
+	for i, a := range cc.Args {
+		if a == v {
+			idx = i
+		}
+	}
+	if idx < 0 {
+		return false
+	}
+	if bi, ok := cc.Value.(*ssa.Builtin); ok {
+		switch bi.Name() {
+		case "len", "cap", "print", "println":
+			return false
+		case "append", "copy":
+			return idx == 0 // the destination; as the source it is only read
+		}
+		return true
+	}
+	if cc.IsInvoke() {
+		// a method of an interface value with the shared object as an argument:
+		// readers of byte orders and hashes aside, assume it writes
+		switch cc.Method.Name() {
+		case "Uint16", "Uint32", "Uint64", "Write", "WriteString", "String":
+			return false
+		}
+		return true
+	}
+	cal := cc.StaticCallee()
+	if cal == nil {
+		return true
+	}
+	if cal.Signature.Recv() != nil && idx == 0 {
+		return false // the receiver: judged by the caller of this function
+	}
+	if fnPkg(cal) != nil && strings.HasPrefix(fnPkg(cal).Pkg.Path(), Mod) {
+		if idx >= len(cal.Params) {
+			return true
+		}
+		prm := ssa.Value(cal.Params[idx])
+		for _, b := range cal.Blocks {
+			for _, ins := range b.Instrs {
+				switch x := ins.(type) {
+				case *ssa.Store:
+					if _, isAlloc := x.Addr.(*ssa.Alloc); !isAlloc && derivedFromArgs(x.Addr, prm, 0) {
+						return true
+					}
+				case *ssa.MapUpdate:
+					if derivedFromArgs(x.Map, prm, 0) {
+						return true
+					}
+				case ssa.CallInstruction:
+					if sharedArgWritten(x, prm) {
+						return true
+					}
+				}
+			}
+		}
+		return false
+	}
+	// the standard library: packages whose functions only read their slice,
+	// map and pointer arguments (documented)
+	if cal.Pkg != nil {
+		switch cal.Pkg.Pkg.Path() {
+		case "strings", "fmt", "strconv", "unicode", "unicode/utf8", "regexp", "errors", "math", "time", "reflect":
+			return false
+		case "bytes":
+			switch cal.Name() {
+			case "Equal", "Compare", "Contains", "Index", "HasPrefix", "HasSuffix", "IndexByte", "Count":
+				return false
+			}
+		case "sort":
+			if strings.HasPrefix(cal.Name(), "Search") {
+				return false
+			}
+		}
+	}
+	return true
 }
 
 // heldAt: forward must-analysis of "some package-level mutex is held" at ins.
@@ -1785,16 +1880,52 @@ func comparatorTotal(p *Program, info *types.Info, sliceArg ast.Expr, fl *ast.Fu
 	// what a helper of the module that the comparator calls reads counts as read
 	// by the comparator (one level)
 	var bodies []ast.Node
+	bodyInfo := map[ast.Node]*types.Info{body: info}
 	ast.Inspect(body, func(n ast.Node) bool {
 		if ce, ok := n.(*ast.CallExpr); ok {
 			if fobj, ok := calleeObj(info, ce).(*types.Func); ok && fobj.Pkg() != nil && strings.HasPrefix(fobj.Pkg().Path(), Mod) {
 				if fd := funcDeclOf(p, fobj); fd != nil && fd.Body != nil {
 					bodies = append(bodies, fd.Body)
+					if pk := p.ByPath[fobj.Pkg().Path()]; pk != nil {
+						bodyInfo[fd.Body] = pk.TypesInfo
+					}
 				}
 			}
 		}
 		return true
 	})
+	// a time among the things compared: only its printed form tells two times
+	// apart that differ in nothing but the reading of the monotonic clock
+	// (time.Now() and the same time after Round(0) are two keys of a Go map)
+	timeParts, timeWhole := token.NoPos, false
+	for nd, inf := range bodyInfo {
+		ast.Inspect(nd, func(n ast.Node) bool {
+			ce, ok := n.(*ast.CallExpr)
+			if !ok {
+				return true
+			}
+			sel, ok := ce.Fun.(*ast.SelectorExpr)
+			if !ok {
+				return true
+			}
+			tv, ok := inf.Types[sel.X]
+			if !ok || !isStdNamed(tv.Type, "time", "Time") {
+				return true
+			}
+			switch sel.Sel.Name {
+			case "String", "GoString":
+				timeWhole = true
+			case "Unix", "UnixNano", "UnixMilli", "UnixMicro", "Nanosecond", "Second", "Format", "Equal", "Before", "After", "Compare":
+				if !timeParts.IsValid() {
+					timeParts = sel.Pos()
+				}
+			}
+			return true
+		})
+	}
+	if timeParts.IsValid() && !timeWhole {
+		return "sorted-not-total", "the comparator orders times by their instant (" + p.Pos(timeParts) + "): two times that differ only in the reading of the monotonic clock — time.Now() and the same value after Round(0) — are different keys of a map but compare equal here, so they stay in map-iteration order and which of the two entries survives the conversion changes from run to run"
+	}
 	for _, hb := range bodies {
 		ast.Inspect(hb, func(n ast.Node) bool {
 			if ce, ok := n.(*ast.CallExpr); ok {
@@ -2168,6 +2299,12 @@ func lossyHashStep(v ssa.Value, seen map[ssa.Value]bool, depth int) (string, tok
 		if bi, ok := x.Call.Value.(*ssa.Builtin); ok && bi.Name() == "len" {
 			return "only the length of the value is used", x.Pos()
 		}
+		// a checksum of 32 bits or fewer as the identity of a key: nothing else
+		// tells two keys apart, and with 2^32 values two of some 77 000 keys
+		// agree more likely than not (pairs of English words are known)
+		if nm := calleeMethodName(&x.Call); nm == "Sum32" || nm == "Sum16" || nm == "Sum8" {
+			return "the value is a " + strings.TrimPrefix(nm, "Sum") + "-bit checksum: the checksum is all that identifies a key of this type, and at that width different texts share one in practice (`costarring` and `liquid` under 32-bit FNV-1a)", x.Pos()
+		}
 		// what was written into a hasher whose sum this is
 		if x.Call.IsInvoke() && len(x.Call.Args) == 0 {
 			recv := x.Call.Value
@@ -2414,4 +2551,14 @@ func selfGuardedObject(p *Program, g *ssa.Global, fns []*ssa.Function) (string, 
 		return "", false
 	}
 	return fmt.Sprintf("an object with a mutex of its own: the variable is only the receiver of %d method(s) of its type, which touch its other fields (%d access(es)) only while that mutex is held and keep what they refer to to themselves", len(methods), accesses), true
+}
+
+func calleeMethodName(cc *ssa.CallCommon) string {
+	if cc.IsInvoke() {
+		return cc.Method.Name()
+	}
+	if f := cc.StaticCallee(); f != nil && f.Signature.Recv() != nil {
+		return f.Name()
+	}
+	return ""
 }
